@@ -464,9 +464,9 @@ package db
 //@   ensures err == nil ==> exhausted(1)
 //@   tags C07
 //@ func (*collection).deleteIndexedDocWithID -> (err)
-//@   assert before call#1 deleteIndexedDoc: arg2 == res(get, 1, 0) && res(get, 1, 1) == nil
+//@   assert before call#1 deleteIndexedDoc: arg2 == res(get, 1, 0) && res(get, 1, 1) == nil && arg2 != nil
 //@   assert before call#1 get: arg2 == res(getPrimaryKeyFromDocID, 1, 0) && callarg(getPrimaryKeyFromDocID, 1, 2) == docID && !arg4
-//@   ensures err == nil ==> called(deleteIndexedDoc, 1)
+//@   ensures err == nil ==> called(deleteIndexedDoc, 1) || res(get, 1, 0) == nil
 //@   tags C07
 //@ func (*collection).updateDocIndex -> (err)
 //@   assert before call#1 deleteIndexedDoc: arg2 == oldDoc
